@@ -988,4 +988,149 @@ theorem groupsOf_spec (R : List (Int × Nat)) (hR : IncTells R) (a b c : Nat) (h
         | cons q _ => exact Or.inl rfl)
   simpa [flat, groupsOf] using this
 
+
+/-- the true X of a located frame: its record's X word plus offset·spacing -/
+def tx (sp : Int) (xr : Int → Int) (q : Int × Nat) : Int := xr q.1 + (q.2 : Int) * sp
+
+/-- consecutive located frames are `c` frames apart on a common X scale -/
+def StepX (sp : Int) (xr : Int → Int) (c : Nat) (L : List (Int × Nat)) : Prop :=
+  ∀ i q q', L[i]? = some q → L[i + 1]? = some q' → tx sp xr q' = tx sp xr q + (c : Int) * sp
+
+/-- which loaded frames get a wrong implied X: those of every record but the first that is entered at an offset > 0 -/
+def badList : List (Int × List Nat) → Bool → List Bool
+  | [], _ => []
+  | e :: es, first => List.replicate e.2.length (!first && decide (e.2.headD 0 > 0)) ++ badList es false
+
+theorem entryXs_closed (sp xrec : Int) (a c len : Nat) (prev : Option Int) :
+    entryXs sp xrec a c len prev
+      = (List.range (len + 1)).map (fun j => entryBase sp xrec a prev + (((j * c : Nat) : Int)) * sp) := by
+  unfold entryXs
+  rw [xsFrom_closed, List.range_succ_eq_map]
+  simp only [List.map_cons, List.map_map, Nat.zero_mul, Nat.cast_zero, Int.zero_mul, Int.add_zero, List.cons.injEq, true_and]
+  apply List.map_congr_left; intro i _; simp only [Function.comp]
+
+theorem flat_cons_ap (t : Int) (a c len : Nat) (es : List (Int × List Nat)) :
+    flat ((t, ap a c (len + 1)) :: es) = (List.range (len + 1)).map (fun j => (t, a + j * c)) ++ flat es := by
+  simp [flat, ap, List.map_map, Function.comp]
+
+/-- one record: all its implied X deviate from the true X by the same amount -/
+theorem entry_dev (sp : Int) (xr : Int → Int) (t : Int) (a c len : Nat) (prev : Option Int) :
+    List.zipWith (fun x q => decide (x ≠ tx sp xr q)) (entryXs sp (xr t) a c len prev)
+        ((List.range (len + 1)).map (fun j => (t, a + j * c)))
+      = List.replicate (len + 1) (decide (entryBase sp (xr t) a prev - (xr t + (a : Int) * sp) ≠ 0)) := by
+  rw [entryXs_closed, List.zipWith_map]
+  have : ∀ j : Nat, decide (entryBase sp (xr t) a prev + ((j * c : Nat) : Int) * sp ≠ tx sp xr (t, a + j * c))
+      = decide (entryBase sp (xr t) a prev - (xr t + (a : Int) * sp) ≠ 0) := by
+    intro j
+    congr 1
+    simp only [tx, ne_eq, eq_iff_iff]
+    push_cast
+    constructor <;> intro h <;> intro h' <;> apply h <;> linarith
+  apply List.ext_getElem
+  · simp
+  · intro i h1 h2
+    simp only [List.getElem_zipWith, List.getElem_range, List.getElem_replicate]
+    exact this i
+
+
+theorem entryXs_getLast (sp xrec : Int) (a c len : Nat) (prev : Option Int) :
+    (entryXs sp xrec a c len prev).getLast? = some (entryBase sp xrec a prev + (((len * c : Nat) : Int)) * sp) := by
+  rw [entryXs_closed, List.range_succ, List.map_append]; simp
+
+/-- **Where the implied X is wrong**: exactly at the frames of every record but the first loaded one that is entered
+at an offset > 0 (spacing ≠ 0, X words of the records consistent). -/
+theorem allXs_dev (sp : Int) (xr : Int → Int) (c : Nat) (hsp : sp ≠ 0) :
+    ∀ (G : List (Int × List Nat)) (prev : Option Int) (first : Bool) (tprev m : Int),
+      (∀ e ∈ G, ∃ a len, e.2 = ap a c (len + 1)) →
+      (∀ e ∈ (if first then G.tail else G), e.2.headD 0 < c) →
+      ((first = true ∧ prev = none) ∨ (first = false ∧ prev = some (tprev + m * sp) ∧ m ≤ 0 ∧
+          ∀ e ∈ G.head?, tx sp xr (e.1, e.2.headD 0) = tprev + (c : Int) * sp)) →
+      StepX sp xr c (flat G) →
+      List.zipWith (fun x q => decide (x ≠ tx sp xr q)) (allXs sp xr c G prev) (flat G) = badList G first := by
+  intro G
+  induction G with
+  | nil => intro _ _ _ _ _ _ _ _; rfl
+  | cons e es ih =>
+    intro prev first tprev m hap hlt hprev hstepx
+    obtain ⟨t, buf⟩ := e
+    obtain ⟨a, len, hbuf⟩ := hap (t, buf) (List.mem_cons_self ..)
+    simp only at hbuf
+    subst hbuf
+    have hhd : (ap a c (len + 1)).headD 0 = a := by simp [ap, List.range_succ_eq_map]
+    have hl : (ap a c (len + 1)).length - 1 = len := by simp [ap]
+    have hlen1 : (ap a c (len + 1)).length = len + 1 := by simp [ap]
+    -- the deviation of this record
+    have hdelta : ∃ m' : Int, m' ≤ 0 ∧ entryBase sp (xr t) a prev - (xr t + (a : Int) * sp) = m' * sp ∧
+        (decide (entryBase sp (xr t) a prev - (xr t + (a : Int) * sp) ≠ 0) = (!first && decide (a > 0))) := by
+      rcases hprev with ⟨hf, hp⟩ | ⟨hf, hp, hm, hlink⟩
+      · subst hf hp
+        refine ⟨0, le_refl _, ?_, ?_⟩
+        · unfold entryBase; by_cases ha : a = 0 <;> simp [ha]
+        · have : entryBase sp (xr t) a none - (xr t + (a : Int) * sp) = 0 := by
+            unfold entryBase; by_cases ha : a = 0 <;> simp [ha]
+          simp [this]
+      · subst hf hp
+        by_cases ha : a = 0
+        · subst ha
+          refine ⟨0, le_refl _, by simp [entryBase], by simp [entryBase]⟩
+        · have hac : a < c := by
+            have := hlt (t, ap a c (len + 1)) (by simp)
+            simp only at this
+            rw [hhd] at this; exact this
+          have hl' := hlink (t, ap a c (len + 1)) (by simp)
+          simp only [tx, hhd] at hl'
+          have hbase : entryBase sp (xr t) a (some (tprev + m * sp)) = tprev + m * sp + (a : Int) * sp := by
+            simp [entryBase, ha]
+          have hd : entryBase sp (xr t) a (some (tprev + m * sp)) - (xr t + (a : Int) * sp) = (m + (a : Int) - (c : Int)) * sp := by
+            rw [hbase, hl']; ring
+          have hm' : m + (a : Int) - (c : Int) ≤ 0 := by omega
+          have hne : m + (a : Int) - (c : Int) ≠ 0 := by omega
+          refine ⟨m + a - c, hm', hd, ?_⟩
+          have : (m + (a : Int) - (c : Int)) * sp ≠ 0 := mul_ne_zero hne hsp
+          have ha' : a > 0 := by omega
+          simp [hd, this, ha']
+    obtain ⟨m', hm', hdm, hdec⟩ := hdelta
+    simp only [allXs, hhd, hl, badList, hlen1, Nat.add_sub_cancel]
+    rw [flat_cons_ap, List.zipWith_append (by simp [entryXs_length]), entry_dev, hdec]
+    congr 1
+    -- the remaining records
+    rw [entryXs_getLast]
+    have hstep' : StepX sp xr c (flat es) := by
+      intro i q q' h1 h2
+      apply hstepx (len + 1 + i) q q'
+      · rw [flat_cons_ap, List.getElem?_append_right (by simp)]; simpa using h1
+      · rw [flat_cons_ap, List.getElem?_append_right (by simp; omega)]
+        simp only [List.length_map, List.length_range]
+        rw [show len + 1 + i + 1 - (len + 1) = i + 1 by omega]; exact h2
+    apply ih _ false (tx sp xr (t, a + len * c)) m' (fun x hx => hap x (List.mem_cons_of_mem _ hx))
+    · simp only [Bool.false_eq_true, if_false]
+      intro x hx
+      cases first with
+      | true => simpa using hlt x (by simpa using hx)
+      | false => exact hlt x (by simp [hx])
+    · right
+      refine ⟨rfl, ?_, hm', ?_⟩
+      · congr 1
+        simp only [tx]
+        push_cast
+        linarith
+      · intro e' he'
+        cases es with
+        | nil => simp at he'
+        | cons e2 es2 =>
+          simp only [List.head?_cons, Option.mem_def, Option.some.injEq] at he'
+          subst he'
+          obtain ⟨a2, len2, hb2⟩ := hap e2 (by simp)
+          have hh2 : e2.2.headD 0 = a2 := by rw [hb2]; simp [ap, List.range_succ_eq_map]
+          rw [hh2]
+          apply hstepx len (t, a + len * c) (e2.1, a2)
+          · rw [flat_cons_ap, List.getElem?_append_left (by simp)]; simp
+          · rw [flat_cons_ap, List.getElem?_append_right (by simp)]
+            simp only [List.length_map, List.length_range, Nat.sub_self]
+            obtain ⟨t2, b2⟩ := e2
+            simp only at hb2; subst hb2
+            rw [flat_cons_ap]; simp [List.range_succ_eq_map]
+    · exact hstep'
+
+
 end TD.C06
